@@ -79,6 +79,20 @@ def one(spec: Dict[str, Any], mode: str = "SYNC") -> Dict[str, Any]:
     return rec
 
 
+def _canon(v: Any) -> Any:
+    """None / NaN / pd.NA -> None; integral floats (a null-padded pandas column is float) -> int."""
+    if v is None:
+        return None
+    try:
+        if v != v:
+            return None
+    except Exception:  # noqa: BLE001  (pd.NA)
+        return None
+    if isinstance(v, float) and v == int(v):
+        return int(v)
+    return v
+
+
 def family(rep: Any, rng: random.Random, big: bool) -> bool:
     ss = specs(rng, big)
     found = False
@@ -112,6 +126,12 @@ def family(rep: Any, rng: random.Random, big: bool) -> bool:
                     found = True
                     continue
                 info["columns_compared"] += 1
+                got = [[_canon(v) for v in got[0]]]
+                if any(v is not None and not isinstance(v, int) for v in got[0]):
+                    rep.finding(key + ":" + name, f"requested source feature {name!r} was returned with non-integer values {got[0]} "
+                                                  f"(source rows {want}; request {spec['request']}, {mode})", {"kind": "joinreq", **rec})
+                    found = True
+                    continue
                 terms.append(f"({cq_list('(Some ' + cq_z(v) + ')' if v is not None else 'None' for v in got[0])}, "
                              f"{cq_list('(Some ' + cq_z(v) + ')' if v is not None else 'None' for v in want)})")
                 idx.append((key + ":" + name, name, got[0], want, rec))
